@@ -77,6 +77,10 @@ def levels_of(setc, u, rd):
         elif c[0] == "map":
             for _, v in c[1]: walk(v)
     for c in setc: walk(c)
+    # every level list names ALL levels (those of the set first, in order of appearance): the one-hot width is then the same for
+    # every interaction of the environment - actions of different widths would be actions of different forms, which the filters
+    # (deciding by the first interaction) do not support and the domain excludes
+    seen += [j for j in range(1, len(names) + 1) if j not in seen]
     return names, [names[j - 1] for j in seen]
 
 
